@@ -40,7 +40,8 @@ START_ROLES = {"opener", "end", "key", "kvopen", "projopen", "ptsopen"}
 
 BASE = dict(MaxFiles=4, MaxFan=2, MaxLines=3, MaxDepth=7, MaxBack=1, MaxMissing=1, MaxNested=5, PropNested=5,
             Dirs={0}, Styles={"rel"}, Quotes={"none"}, Cms={False}, Wants={0}, Caps={8}, Entries={"file"},
-            Mode="all", ExactDefects=False, EnvChdir=False, ResolveAgainst="root")
+            Mode="all", ExactDefects=False, EnvChdir=False, ResolveAgainst="root",
+            Nls={"lf"}, Words={False}, MaxDecoy=0, ReadMode="verbatim", DepthGuard="directive")
 
 
 # ------------------------------------------------------------------------------------------- (M)
@@ -54,6 +55,9 @@ def model_configs(tier):
             ("deepfan", dict(MaxFiles=7, MaxFan=2, MaxLines=2, Wants={5}, MaxBack=0, MaxMissing=0), False),
             ("resolve", dict(MaxFiles=3, MaxLines=2, Dirs={0, 1}, Styles={"rel", "abs"},
                              Entries={"file", "string"}, MaxBack=0), False),
+            ("surface", dict(MaxFiles=3, MaxLines=2, MaxFan=1, Dirs={0, 1}, MaxBack=0, MaxMissing=0, MaxDecoy=2,
+                             Nls={"lf", "crlf"}), False),
+            ("words", dict(MaxFiles=3, MaxLines=2, MaxFan=1, MaxBack=0, Words={False, True}), False),
             ("live_chdir", dict(MaxFiles=3, MaxLines=2, MaxFan=1, MaxMissing=0, Dirs={0, 1}, EnvChdir=True), True),
             ("live_chain", dict(MaxFiles=8, MaxFan=1, MaxLines=1), True),
         ]
@@ -63,6 +67,9 @@ def model_configs(tier):
         ("deepfan", dict(MaxFiles=8, MaxFan=2, MaxLines=2, Wants={5}, MaxMissing=0), False),
         ("resolve", dict(MaxFiles=3, MaxLines=3, Dirs={0, 1}, Styles={"rel", "abs"},
                          Entries={"file", "string"}, MaxBack=0), False),
+        ("surface", dict(MaxFiles=3, MaxLines=2, MaxFan=1, Dirs={0, 1}, MaxBack=0, MaxMissing=0, MaxDecoy=2,
+                         Nls={"lf", "crlf"}, Words={False, True}, Entries={"file", "string"}), False),
+        ("words", dict(MaxFiles=4, MaxLines=2, Words={False, True}), False),
         ("live_chdir", dict(MaxFiles=3, MaxLines=3, Dirs={0, 1}, EnvChdir=True), True),
         ("live_chain", dict(MaxFiles=8, MaxFan=1, MaxLines=2, MaxMissing=0), True),
     ]
@@ -80,11 +87,21 @@ def negative_configs(tier):
         ("neg_cwd", dict(res, ResolveAgainst="cwd", EnvChdir=True), None, [],
          {"Equiv", "ErrMissingSound", "MissingIff", "PrefixOK"}),
         ("neg_unfair", dict(MaxFiles=2, MaxLines=1, MaxBack=0, MaxMissing=0), "SpecUnfair", ["Halts"], {"temporal"}),
+        # the three machine variants below agree with the property on every graph without a decoy / a CRLF
+        # file / a chunk mentioning the word: they are told apart only because the universe holds those
+        ("neg_includer_first", dict(MaxFiles=3, MaxFan=1, MaxLines=2, Dirs={0, 1}, MaxBack=0, MaxMissing=0, MaxDecoy=1,
+                                    ResolveAgainst="includer-first"), None, [], {"Equiv", "PrefixOK"}),
+        ("neg_translate", dict(MaxFiles=2, MaxFan=1, MaxLines=2, MaxBack=0, MaxMissing=0, Nls={"lf", "crlf"},
+                               ReadMode="translate-included"), None, [], {"Equiv", "PrefixOK"}),
+        ("neg_word_guard", dict(chain, MaxFiles=6, Words={False, True}, DepthGuard="word"), None, [],
+         {"ErrDepthSound", "DepthIff"}),
     ]
     if tier != "quick":
         neg += [
             ("neg_includer", dict(res, ResolveAgainst="includer"), None, [],
              {"Equiv", "ErrMissingSound", "MissingIff", "PrefixOK"}),
+            ("neg_cwd_first", dict(res, MaxFiles=2, MaxDecoy=1, ResolveAgainst="cwd-first", EnvChdir=True), None, [],
+             {"Equiv", "PrefixOK", "ErrMissingSound", "MissingIff"}),
             ("neg_fair_next", dict(MaxFiles=2, MaxLines=1, MaxBack=0, MaxMissing=0, Dirs={0, 1}, EnvChdir=True),
              "SpecNextFair", ["Halts"], {"temporal"}),
         ]
@@ -140,7 +157,7 @@ def batches(tier):
     w = dict(MaxFiles=12, MaxFan=fan, MaxLines=2 * fan + 1, MaxDepth=7, MaxBack=0, MaxMissing=0,
              Dirs={0, 1, 2, 3}, Styles={"rel", "abs"}, Quotes={"none", "single", "double"}, Cms={False, True},
              Wants={0, 1, 2, 3, 4, 5}, Caps={2, 3, 4, 6, 8, 10, 12}, Entries={"file", "string"}, Mode="walk",
-             ExactDefects=True)
+             ExactDefects=True, Nls={"lf", "crlf"}, Words={False, True}, MaxDecoy=3)
     k = 1 if q else 70
     return [
         ("ok", dict(w, MaxDepth=5), 190 * k),
@@ -195,7 +212,7 @@ def has_include(hist):
 def render(hist, cseed):
     """-> (lines of the whole document, cut candidates (0-based line indexes where a piece may start, > 0),
            insertion candidates for directives kept as data (line index, enclosing block type))"""
-    conc = concretise.Concretiser(cseed, no_multiline=True)
+    conc = concretise.Concretiser(cseed, strings=STRINGS)
     toks = conc.tokens(concretise.with_root(include_free(hist), docs.root_type(hist)))
     text, pos = concretise.assemble(toks)
     lines = text.split("\n")
@@ -220,6 +237,18 @@ def render(hist, cseed):
     return lines, cuts, inserts
 
 
+# string contents of the documents: the shared pool, with more values that span lines (their line
+# breaks are written with the line ending of the file the value ends up in) and values / keys that
+# merely contain the word include; no continuation line starts with the word (the quantifier:
+# directives on their own line outside strings)
+STRINGS = [x[0] for x in concretise.STR_POOL] + [
+    "multi\nline", "first line\nsecond line", "a\n\nb", "x\ny\nz", "abstract:\n  indented\n", "\nleading break",
+    "two\nlines 'quoted'", "tab\there\nand a break", "one\ntwo", "para 1\n\npara 2\n",
+    "please include me", "wms_include_items", "gml_include_items all", "do not INCLUDE \"x.map\""]
+assert not any(ln.strip().lower().startswith("include") for x in STRINGS for ln in x.split("\n")[1:])
+WORD_LINES = ["# include the roads here", "  # INCLUDE 'old/layers.map'", "#include", "\t# was: Include \"x.map\" # twice",
+              "# gml_include_items", "  ## do not include"]
+
 # ------------------------------------------------------------------------------------------- realisation
 KEYWORDS = ["INCLUDE", "INCLUDE", "include", "Include", "InClUdE"]
 INDENTS = ["", "", "  ", "    ", "\t"]
@@ -240,12 +269,14 @@ def directive_text(rng, ln, name):
     return s
 
 
-def build_case(g, hist, cseed, rseed, nl, idx):
+def build_case(g, hist, cseed, rseed, idx):
     """Lay the document over the graph.  Pure: returns a JSON-able case (paths relative to PLACE)."""
     rng = random.Random(rseed)
     n = g["n"]
     # directories: id -> nested relative path
-    ndirs = max(max(g["dir"]), g["cwd0"], g["base"]) + 1
+    incs = [(f, i, ln) for f in range(n) for i, ln in enumerate(g["fs"][f]) if ln["k"] == "i"]
+    ndirs = max([max(g["dir"]), g["cwd0"], g["base"]] + [ln["altdir"] for _f, _i, ln in incs]) + 1
+    NL = {"lf": "\n", "crlf": "\r\n"}
     dpath = []
     for d in range(ndirs):
         parent = "" if (d == 0 or rng.random() < 0.35) else dpath[rng.randrange(d)]
@@ -255,7 +286,14 @@ def build_case(g, hist, cseed, rseed, nl, idx):
     fpath = [os.path.join(dpath[g["dir"][f]], fname[f]) for f in range(n)]        # index f-1
     base = dpath[g["base"]]
 
-    def name_of(ln):
+    names = {}
+
+    def name_of(ln, key):
+        if key not in names:
+            names[key] = name_of_(ln)
+        return names[key]
+
+    def name_of_(ln):
         if ln["t"] == 0:
             target = os.path.join(dpath[rng.randrange(ndirs)], rng.choice(["nothing.map", "gone/x.map", "f0.map"]))
         else:
@@ -268,7 +306,7 @@ def build_case(g, hist, cseed, rseed, nl, idx):
         return rel
 
     lines, cuts, inserts = render(hist, cseed)
-    order = [tuple(x) for x in (g["full"] or g["flat"])]
+    order = [(x[0], x[1]) for x in (g["full"] or g["flat"])]
     contents = [(f + 1, i + 1) for f in range(n) for i, ln in enumerate(g["fs"][f]) if ln["k"] == "c"]
     if not order:
         order = contents                      # cyclic graphs: the layout is immaterial
@@ -285,35 +323,52 @@ def build_case(g, hist, cseed, rseed, nl, idx):
             cp = sorted(rng.choice(cuts) if cuts else len(lines) for _ in range(k - 1))
         bounds = [0] + cp + [len(lines)]
         for j, c in enumerate(order):
-            piece[c] = lines[bounds[j]:bounds[j + 1]]
+            piece[c] = list(lines[bounds[j]:bounds[j + 1]])
+    # chunks that mention the word include without being a directive: a comment line at an item boundary
+    for (f, i) in contents:
+        if g["fs"][f - 1][i - 1].get("word"):
+            w = rng.choice(WORD_LINES)
+            piece[(f, i)] = [w] + piece[(f, i)] if rng.random() < 0.5 else piece[(f, i)] + [w]
     files = {}
     for f in range(n):
         out = []
+        e = NL[g["nl"][f]]
         for i, ln in enumerate(g["fs"][f]):
             if ln["k"] == "c":
                 out += piece[(f + 1, i + 1)]
             else:
-                out.append(directive_text(rng, ln, name_of(ln)))
-        text = nl.join(out)
+                out.append(directive_text(rng, ln, name_of(ln, (f, i))))
+        text = e.join(out)
         if out and rng.random() < 0.8:
-            text += nl
+            text += e
         files[fpath[f]] = text
+    # decoys: the same relative name exists below another directory, with other content
+    decoy_dirs = []
+    for f, i, ln in incs:
+        if ln["alt"] and ln["st"] == "rel":
+            dp = os.path.normpath(os.path.join(dpath[ln["altdir"]], name_of(ln, (f, i))))
+            if dp.startswith("..") or os.path.isabs(dp) or dp in files:
+                continue                      # (would leave the tree / hit a real file: not planted)
+            files[dp] = "# decoy %d\n" % ln["alt"]
+            decoy_dirs.append(dpath[ln["altdir"]])
+    # the substituted text: every chunk with the line ending the specification attaches to it
+    whole = "".join(x + NL[c[2]] for c in g["flat"] for x in piece[(c[0], c[1])])
     # directives kept as data: every directive of the graph written into the whole document, inside
     # blocks whose schema has an INCLUDE slot
     inc_types = include_types()
     spots = [ln for ln, typ in inserts if typ in inc_types]
     keep = None
-    dirs_ = [ln for f in range(n) for ln in g["fs"][f] if ln["k"] == "i"]
-    if spots and dirs_:
-        at = sorted(rng.choice(spots) for _ in dirs_)
-        names = [name_of(ln) for ln in dirs_]
-        keep = {"lines": lines, "at": at, "dtext": [directive_text(rng, ln, nm) for ln, nm in zip(dirs_, names)],
-                "names": names, "surface": [[ln["st"], ln["q"], "cm" if ln["cm"] else "nocm"] for ln in dirs_]}
-    styles = sorted({ln["st"] for f in range(n) for ln in g["fs"][f] if ln["k"] == "i"})
-    cwds = [extra_dirs[0], "", dpath[rng.randrange(ndirs)], extra_dirs[1], "/"]
+    if spots and incs:
+        at = sorted(rng.choice(spots) for _ in incs)
+        nms = [name_of(ln, (f, i)) for f, i, ln in incs]
+        keep = {"lines": lines, "at": at, "dtext": [directive_text(rng, ln, nm) for (_f, _i, ln), nm in zip(incs, nms)],
+                "names": nms, "surface": [[ln["st"], ln["q"], "cm" if ln["cm"] else "nocm"] for _f, _i, ln in incs]}
+    styles = sorted({ln["st"] for _f, _i, ln in incs})
+    cwds = [extra_dirs[0], "", dpath[rng.randrange(ndirs)], extra_dirs[1], "/"] + decoy_dirs * 2
+    nls = sorted(set(g["nl"]))
     return {"idx": idx, "graph": g, "dirs": dpath + extra_dirs, "files": files, "root": fpath[0],
-            "rootdir": dpath[g["dir"][0]], "base": base, "whole": "\n".join(lines) + "\n", "nl": nl,
-            "nlname": "crlf" if nl == "\r\n" else "lf", "styles": "+".join(styles) or "none",
+            "rootdir": dpath[g["dir"][0]], "base": base, "whole": whole, "plain": "\n".join(lines) + "\n",
+            "nl": NL[g["nl"][0]], "nlname": nls[0] if len(nls) == 1 else "mixed", "styles": "+".join(styles) or "none",
             "cwd_open": rng.choice(cwds), "cwd_load": rng.choice(cwds),
             "root_rel_open": rng.random() < 0.5, "root_rel_load": rng.random() < 0.5,
             "keep": keep, "chunks": k}
@@ -543,7 +598,7 @@ def check_keep(case, tmp, loads0, public):
     text = keep_text(keep, case["nl"]).replace(PLACE, tmp)
     names = [x.replace(PLACE, tmp) for x in keep["names"]]
     try:
-        whole = project.project(loads0(case["whole"]))
+        whole = project.project(loads0(case["plain"]))
     except Exception:  # noqa: BLE001
         return []
 
@@ -610,10 +665,10 @@ def _pool_init(tmp):
 
 
 def _pool_job(job):
-    g, hist, cseed, rseed, nl, idx, public, keep_public = job
+    g, hist, cseed, rseed, idx, public, keep_public = job
     tmp = tempfile.mkdtemp(prefix="g%05d_" % idx, dir=_POOL_TMP)
     try:
-        case = build_case(g, hist, cseed, rseed, nl, idx)
+        case = build_case(g, hist, cseed, rseed, idx)
         ev, found = run_case(case, tmp, public=public, keep_public=keep_public)
         found = [(sig, what, replay_case_of(case, extra) if sig not in ("SKIP",) else None) for sig, what, extra in found]
         sample = {"graph": {k: g[k] for k in ("fs", "dir", "entry", "allowed", "flat")}, "files": case["files"]} if idx < 2 else None
@@ -626,7 +681,7 @@ def _pool_job(job):
 
 
 def replay_case_of(case, extra):
-    c = {k: case[k] for k in ("files", "root", "rootdir", "base", "whole", "nlname", "styles", "dirs", "cwd_open",
+    c = {k: case[k] for k in ("files", "root", "rootdir", "base", "whole", "plain", "nlname", "styles", "dirs", "cwd_open",
                                "cwd_load", "root_rel_open", "root_rel_load", "keep", "chunks", "idx", "nl")}
     c["graph"] = {k: v for k, v in case["graph"].items() if k != "machine"}
     c["observed"] = extra
@@ -753,9 +808,8 @@ def run(tier):
         jobs = []
         for idx, g in enumerate(graphs):
             h = usable[rng.randrange(len(usable))]
-            nl = "\r\n" if rng.random() < 0.4 else "\n"
             public = (idx % 3 == 0) if quick else (idx < 1500 or idx % 20 == 0)
-            jobs.append((g, h, seed * 100000 + idx, seed * 100003 + idx, nl, idx, public, idx % (8 if quick else 16) == 0))
+            jobs.append((g, h, seed * 100000 + idx, seed * 100003 + idx, idx, public, idx % (8 if quick else 16) == 0))
         with pool:
             for idx, ev, found, sample in pool.imap_unordered(_pool_job, jobs, chunksize=4):
                 g = graphs[idx]
